@@ -115,6 +115,20 @@ impl<'a> Model<'a> {
     }
 }
 
+/// Runs the model on a whole word. Returns the final step and the index of the lookahead at which it
+/// happened (`word.len()` = end of input).
+pub fn simulate(model: &Model, word: &[u8]) -> (Step, usize) {
+    let mut cfg = model.initial();
+    let mut steps = 0;
+    for (i, a) in word.iter().enumerate() {
+        match model.feed(&mut cfg, *a, &mut steps) {
+            Step::Shifted => {}
+            other => return (other, i),
+        }
+    }
+    (model.feed(&mut cfg, model.case.g.t as u8, &mut steps), word.len())
+}
+
 /// Reference canonical LR(1) driver, one lookahead at a time (same interface as the model).
 #[derive(Clone)]
 struct RefCfg {
